@@ -133,6 +133,9 @@ def scenario_strategy(max_feedback=8, max_sup=4, score_bias=False, correct_bias=
     }, optional={
         # the report was already resolved before (results discarded): with the default key, or with an instructor's own priority key
         'earlier': st.lists(st.sampled_from(['simple', 'full', 'simple-reversed-key', 'full-reversed-key']), min_size=1, max_size=2),
+        # the report works with feedback pools and the class of one feedback carries a pool override of its rank
+        'pool_override': st.fixed_dictionaries({'index': st.integers(0, 7), 'field': st.sampled_from(['priority', 'priority', 'category']),
+                                                'value': st.sampled_from(['low', 'high', 'highest', 'lowest', 'syntax', 'runtime', 'instructor', 'student'])}),
     })
 
 
